@@ -44,7 +44,8 @@ def render(lines, rnd, variant):
     for ln in lines:
         k = ln["kind"]
         if k == "CATALOG":
-            catalog = "".join(rnd.choice("0123456789") for _ in range(13))
+            # 13 digits; special values are digits like any others
+            catalog = rnd.choice(["".join(rnd.choice("0123456789") for _ in range(13))] * 3 + ["0000000000000", "9999999999999", "0000000000001", "1000000000000"])
             out.append("CATALOG " + ('"%s"' % catalog if quote else catalog))
         elif k == "TRACK":
             out.append(indent + "TRACK %s AUDIO" % (("%02d" % ln["n"]) if lead0 else str(ln["n"])))
@@ -52,7 +53,7 @@ def render(lines, rnd, variant):
             if extra:
                 out.append(indent * 2 + 'TITLE "Track %d"' % ln["n"])
         elif k == "ISRC":
-            code = "US" + rnd.choice(["S1Z", "ABC", "A1B"]) + "%02d" % rnd.randint(0, 99) + "%05d" % rnd.randint(0, 99999)
+            code = rnd.choice(["US", "ZZ", "AA"]) + rnd.choice(["S1Z", "ABC", "A1B", "000", "ZZZ", "999"]) + rnd.choice(["%02d" % rnd.randint(0, 99), "00", "99"]) + rnd.choice(["%05d" % rnd.randint(0, 99999), "00000", "99999"])
             isrcs[-1] = code
             shown = code if variant % 3 else code[:2] + "-" + code[2:5] + "-" + code[5:7] + "-" + code[7:]
             out.append(indent * 2 + "ISRC " + ('"%s"' % shown if quote else shown))
